@@ -1,9 +1,15 @@
 """Verify one contract: regenerate obligations from the current source and discharge them."""
+import json
+import os
+import tempfile
 import time
 import traceback
 from .core import Exec, Unsupported, SpecError
-from .solve import discharge
+from .solve import discharge, Result
 from .spec import source_info
+
+PAR_MIN = 24        # obligations of one function are discharged by forked helpers above this count
+PAR_N = int(os.environ.get('PYVC_PAR', '4'))
 
 
 class FnReport:
@@ -14,6 +20,81 @@ class FnReport:
         self.info = None
         self.stats = {}
         self.time_s = 0.0
+
+
+class LiteResult:
+    """what a forked helper sends back about one obligation (z3 objects do not cross processes)"""
+
+    def __init__(self, vc, d):
+        self.vc, self.status, self.backend, self.time_s, self.detail = vc, d['status'], d['backend'], d['time_s'], d['detail']
+        self.model, self.model_summary, self.replay = None, d.get('model_summary'), d.get('replay')
+
+    @property
+    def ok(self):
+        return self.status == ('sat' if self.vc.expect == 'sat' else 'unsat')
+
+
+def _summarise(k, r):
+    out = {'status': r.status, 'backend': r.backend, 'time_s': r.time_s, 'detail': r.detail}
+    if not r.ok and r.model is not None:
+        ms = {}
+        for nm, t in (r.vc.inputs or {}).items():
+            try:
+                ms[nm] = str(r.model.eval(t, model_completion=True))
+            except Exception:
+                pass
+        out['model_summary'] = ms
+        f = getattr(k, 'replay', None)
+        if f is not None:
+            try:
+                out['replay'] = f(r.model, r.vc)
+            except Exception as e:
+                out['replay'] = {'reproduced': False, 'error': 'replay failed: %s' % e}
+    return out
+
+
+def discharge_all(k, vcs, use_cvc5=True):
+    """sequentially for small functions; otherwise PAR_N forked helpers take every PAR_N-th obligation each"""
+    if len(vcs) < PAR_MIN or PAR_N <= 1:
+        out = []
+        for vc in vcs:
+            r = discharge(vc, use_cvc5)
+            out.append(LiteResult(vc, _summarise(k, r)))
+        return out
+    tmp = tempfile.mkdtemp(prefix='pyvc_')
+    pids = []
+    for w in range(PAR_N):
+        pid = os.fork()
+        if pid == 0:
+            code = 0
+            try:
+                res = {}
+                for i in range(w, len(vcs), PAR_N):
+                    try:
+                        res[i] = _summarise(k, discharge(vcs[i], use_cvc5))
+                    except Exception as e:      # a solver-side failure is an undecided obligation, never a verdict
+                        res[i] = {'status': 'unknown', 'backend': '-', 'time_s': 0.0, 'detail': 'solver error: %s' % e}
+                with open(os.path.join(tmp, '%d.json' % w), 'w') as f:
+                    json.dump(res, f, default=str)
+            except BaseException:
+                code = 1
+            os._exit(code)
+        pids.append(pid)
+    for pid in pids:
+        os.waitpid(pid, 0)
+    merged = {}
+    for w in range(PAR_N):
+        p = os.path.join(tmp, '%d.json' % w)
+        if os.path.exists(p):
+            with open(p) as f:
+                merged.update({int(i): d for i, d in json.load(f).items()})
+            os.unlink(p)
+    os.rmdir(tmp)
+    out = []
+    for i, vc in enumerate(vcs):
+        d = merged.get(i) or {'status': 'unknown', 'backend': '-', 'time_s': 0.0, 'detail': 'helper process died'}
+        out.append(LiteResult(vc, d))
+    return out
 
 
 def verify_contract(world, k, use_cvc5=True):
@@ -31,12 +112,10 @@ def verify_contract(world, k, use_cvc5=True):
         elif not getattr(ex, 'endpoints', 0):
             rep.error = 'engine error: no feasible path reaches a normal return of %s (vacuous contract?)' % k.qual
         rep.stats['returns_reached'] = getattr(ex, 'endpoints', 0)
-        for vc in vcs:
-            rep.results.append(discharge(vc, use_cvc5))
+        rep.results = discharge_all(k, vcs, use_cvc5)
     except (Unsupported, SpecError) as e:
         rep.error = '%s: %s' % (type(e).__name__, e)
     except Exception as e:     # engine bug: never a verdict
-        import os
         if os.environ.get('PYVC_RAISE'):
             raise
         rep.error = "engine error: %s | %s" % (e, " <- ".join(traceback.format_exc().strip().splitlines()[-6:]))
